@@ -1,0 +1,7 @@
+//go:build verif
+
+package future
+
+import "github.com/csgura/fp"
+
+func verifSpawn(run func()) bool { return fp.VerifSpawn(run) }
